@@ -140,6 +140,7 @@ def check(ctx):
     sibling_paths(ctx, s, dates)
     both_regions(ctx, s, dates)
     shares_sum(ctx, s, dates)
+    linear_shape(ctx, s, dates)
     from ._siblings import capped_multiplier_findings
 
     ctx.rule("S-cap", "the regular and the transition-zone copy of a contribution formula scale a rate parameter by the identical capped expression (otherwise the two regimes do not meet at the zone boundary)")
@@ -472,3 +473,113 @@ def shares_sum(ctx, s, dates):
                 seen.add(key)
                 ctx.violation("S-sum", f"{b}|{nodes[an].rule.name}|{nodes[ag].rule.name}", nodes[an].rule.where, f"at {d} neither {an} nor {ag} is `{tot} - <the other share>`: both shares are computed independently, nothing makes them add up to the total contribution in the transition zone")
     ctx.floor("S-sum", 8)
+
+
+# --------------------------------------------------------------------------- L: linear forms in the wage, per regime
+PERSON_SCENARIOS = [
+    # (label, overrides of person-level inputs / nodes that select rates)
+    ("west, childless adult", {"wohnort_ost": False, "ges_pflegev_hat_kinder": False, "ges_pflegev_zusatz_kinderlos": True, "ges_pflegev_anz_kinder_bis_24": 0, "alter": 40}),
+    ("east, one child", {"wohnort_ost": True, "ges_pflegev_hat_kinder": True, "ges_pflegev_zusatz_kinderlos": False, "ges_pflegev_anz_kinder_bis_24": 1, "alter": 40}),
+    ("west, three children", {"wohnort_ost": False, "ges_pflegev_hat_kinder": True, "ges_pflegev_zusatz_kinderlos": False, "ges_pflegev_anz_kinder_bis_24": 3, "alter": 40}),
+    ("east, six children", {"wohnort_ost": True, "ges_pflegev_hat_kinder": True, "ges_pflegev_zusatz_kinderlos": False, "ges_pflegev_anz_kinder_bis_24": 6, "alter": 40}),
+]
+
+
+# an employee without other insured income (the wage sweep of the property varies the wage only)
+NO_OTHER_INCOME = {"priv_rente_m": 0.0, "eink_selbst_m": 0.0, "eink_vermietung_m": 0.0, "kapitaleink_brutto_m": 0.0, "sonstig_eink_m": 0.0, "ges_rente_m": 0.0, "sum_ges_rente_priv_rente_m": 0.0}
+
+
+class LinFlow:
+    """value of a node as a linear form a * wage + b (or just 'non-decreasing in the wage') with the regime columns
+    and the person's characteristics bound to a scenario; parameters are the concrete values of the date"""
+
+    def __init__(self, s, dag, d, scen):
+        self.s, self.dag, self.d = s, dag, d
+        self.scen = {k: Conc(v) for k, v in {**NO_OTHER_INCOME, **scen}.items()}
+        self.memo = {}
+
+    def node(self, n, stack=()):
+        if n in self.memo:
+            return self.memo[n]
+        if n in self.scen:
+            return self.scen[n]
+        if n == WAGE:
+            return Abs({"float"}, deps={WAGE}, sym=WAGE, sign="nonneg", lin=(1.0, 0.0))
+        if n in stack or len(stack) > 30:
+            return None
+        node = self.dag.nodes.get(n)
+        out = None
+        if node is None:
+            out = None  # another input column: independent of the wage but unknown
+        elif node.kind == "rule" and self.s.is_scalar_rule(node.rule):
+            r = node.rule
+            ov = dict(self.scen)
+            for a in r.argnames:
+                if a.endswith("_params") or a in ov:
+                    continue
+                v = self.node(a, (*stack, n))
+                if v is not None:
+                    ov[a] = v
+            try:
+                rr = self.s.analyse_rule(r, self.d, arg_overrides=ov)
+                out = rr.res
+            except Exception:  # noqa: BLE001
+                out = None
+        elif node.kind == "time":
+            out = None
+        self.memo[n] = out
+        return out
+
+
+def linear_shape(ctx, s, dates):
+    """L1 / L2: with the regime bound, each employee contribution is a linear form a * w + b in the wage w (parameters
+    are concrete at a date).  L1: a >= 0 inside the transition zone (non-decreasing); with regular employment the
+    form is non-decreasing through the ceiling.  L2: the transition-zone form and the regular form take the same
+    value at the upper zone boundary w = midijob limit (the reduced contributions meet the regular ones)."""
+    from staticlib.absint import lin_of, mono_of
+
+    ctx.rule("L1", "within the transition zone every employee contribution is a linear form a*w + b in the gross wage with a >= 0; with regular employment it is non-decreasing in the wage (linear below the ceiling, constant above)")
+    ctx.rule("L2", "at the upper boundary of the transition zone the transition-zone form and the regular form of each employee contribution agree (to 0.005 EUR)")
+    GLEIT = {"geringfügig_beschäftigt": False, "in_gleitzone": True, "regulär_beschäftigt": False, "selbstständig": False, "rentner": False}
+    seen = set()
+    for d in dates:
+        dag = s.dag(d)
+        params, _, _ = s.em.params(d)
+        try:
+            upper = float(params["sozialv_beitr"]["geringfügige_eink_grenzen_m"]["midijob"])
+        except Exception:  # noqa: BLE001
+            raise AnalysisError(f"L2: upper transition-zone limit not found in the parameters at {d}") from None
+        for label, person in (PERSON_SCENARIOS if ctx.tier == "thorough" else PERSON_SCENARIOS[:3]):
+            fz = LinFlow(s, dag, d, {**GLEIT, **person})
+            fr = LinFlow(s, dag, d, {**REGULAR, **person})
+            for t in TARGETS:
+                vz, vr = fz.node(t), fr.node(t)
+                lz = lin_of(vz) if vz is not None else None
+                key = (t, _impl(dag, t), label)
+                if lz is None:
+                    ctx.skip("L1", f"{t}@{d}|{label}", "transition-zone contribution is not a linear form in the wage for the interpreter")
+                    continue
+                ok = lz[0] >= -1e-12
+                ctx.ob("L1", ok=ok, distinct=(key, str(d)))
+                if not ok and ("L1", key) not in seen:
+                    seen.add(("L1", key))
+                    ctx.violation("L1", f"{t}|{_impl(dag, t)}|slope", dag.nodes[t].rule.where, f"at {d} ({label}) the transition-zone form of {t} is {lz[0]:.6f} * wage + {lz[1]:.4f}: it decreases with the wage")
+                mr = mono_of(vr) if vr is not None else None
+                if vr is None or mr is None:
+                    ctx.skip("L1", f"{t}@{d}|{label}|regular", "regular contribution not recognised as non-decreasing in the wage")
+                else:
+                    ctx.ob("L1", ok=True, distinct=(key, str(d), "regular"))
+                # value of the regular form at the boundary: below the ceiling the capped wage is the wage itself
+                fb = LinFlow(s, dag, d, {**REGULAR, **person, WAGE: upper})
+                vb = fb.node(t)
+                lb_ = lin_of(vb) if vb is not None else None
+                if lb_ is None or lb_[0] != 0:
+                    ctx.skip("L2", f"{t}@{d}|{label}", "regular contribution at the zone boundary not a concrete amount for the interpreter")
+                    continue
+                at_zone = lz[0] * upper + lz[1]
+                ok = abs(at_zone - lb_[1]) <= 0.005
+                ctx.ob("L2", ok=ok, distinct=(key, str(d)))
+                if not ok and ("L2", key) not in seen:
+                    seen.add(("L2", key))
+                    ctx.violation("L2", f"{t}|{_impl(dag, t)}|boundary", dag.nodes[t].rule.where, f"at {d} ({label}) the transition-zone form of {t} gives {at_zone:.4f} at the upper zone boundary {upper:g} but the regular contribution there is {lb_[1]:.4f}: the reduced contribution does not meet the regular one (a step of {lb_[1] - at_zone:+.4f} EUR at the boundary wage)")
+    ctx.skip_budget("L1", 40) if hasattr(ctx, "skip_budget") else None
